@@ -198,7 +198,8 @@ class RouterWorld(World):
         self.sc = sc
         self.tables = {}
         self.violations = []       # numeric hazards found while interpreting
-        self.facts = {}            # id(Scaled) -> {"nonzero":bool, "finite":bool}
+        # (facts established by the code's own tests -- non-zero, finite -- are kept on the Scaled
+        #  objects themselves, never in a table keyed by id(): ids are reused after collection)
         self.exp_sym = Sym("exp", "p")
         self.slope_syms = {}
         for name in ("m_receivers", "m_receivers_distance", "m_receivers_weight", "m_donors"):
@@ -357,16 +358,16 @@ class RouterWorld(World):
             return Scaled(a.deg, lo, a.hi + b.hi, one, a.terms + b.terms, "sum")
         if op == "/":
             if b.hazard():
-                f = self.facts.get(id(b), {})
+                f = getattr(b, "known", {})
                 if not (f.get("nonzero") and f.get("finite")):
                     self.hazard("weights divided by a sum of slope^p terms that can underflow to 0 "
                                 "or overflow to inf (0/0 or inf/inf = NaN): terms %s" % b.terms)
-                return Scaled("norm", 0.0, 1.0, terms=[("norm", tuple(a.terms), tuple(b.terms), id(b))],
+                return Scaled("norm", 0.0, 1.0, terms=[("norm", tuple(a.terms), tuple(b.terms), b)],
                               desc="w/sum")
             if b.lo <= 0.0:
                 self.hazard("division by a scale-free quantity that may be 0")
             return Scaled("norm" if a.deg == 0 else a.deg, 0.0, INF,
-                          terms=[("norm", tuple(a.terms), tuple(b.terms), id(b))], desc="w/sum")
+                          terms=[("norm", tuple(a.terms), tuple(b.terms), b)], desc="w/sum")
         raise AnalysisBroken("router model: weight operation %s" % op)
 
     def on_decision(self, op, a, b, outcome):
@@ -375,7 +376,7 @@ class RouterWorld(World):
                 positive = (op in (">", "!=") and outcome) or (op in ("<=", "==") and not outcome)
                 if x is a and op == ">" and outcome or x is a and op == "!=" and outcome \
                         or x is a and op == "==" and not outcome or x is a and op == "<=" and not outcome:
-                    self.facts.setdefault(id(x), {})["nonzero"] = True
+                    x.known = dict(getattr(x, "known", {}), nonzero=True)
 
     # ------------------------------------------------------------------ library model
     def member(self, it, fn, node, base, frame):
@@ -478,7 +479,7 @@ class RouterWorld(World):
             if isinstance(v, Scaled):
                 d = it.decide(call)
                 if d:
-                    self.facts.setdefault(id(v), {})["finite"] = True
+                    v.known = dict(getattr(v, "known", {}), finite=True)
                 return d
             return NOT_HANDLED
         if obj is not None:
